@@ -135,4 +135,217 @@ theorem open_close_noop (t : Tree) (hn : t.uids.Nodup) :
 example : (fileOf (step exTree (.rename 3 "x")).1).nodes.filter (·.ent.uid != 3)
     = (fileOf exTree).nodes.filter (·.ent.uid != 3) := by decide
 
+
+/-! ### removals and moves -/
+
+/-- child entries that do not point at `u` -/
+def dropLink (u : Nat) (l : List (Kind × Nat)) : List (Kind × Nat) := l.filter (fun x => x.2 ≠ u)
+
+theorem linksL_eraseL (u : Nat) : ∀ ks : List Tree, linksL (eraseL ks u) = dropLink u (linksL ks)
+  | [] => by simp [eraseL, linksL, dropLink]
+  | k :: ks => by
+    have ih := linksL_eraseL u ks
+    simp only [linksL, dropLink] at ih ⊢
+    simp only [eraseL]
+    split
+    · rename_i h
+      simp [List.filter_cons, h, ih]
+    · rename_i h
+      have : (k.erase u).ent = k.ent := by cases k; rfl
+      simp [List.filter_cons, h, ih, this]
+
+mutual
+/-- **Frame for removals (structure)**: every node of the tree after erasing `u` is an old node with the same content
+    whose child entries lost exactly the entries pointing at `u`. -/
+theorem erase_frame (u : Nat) : ∀ (t : Tree) (n' : Node), n' ∈ (t.erase u).flat →
+    ∃ n ∈ t.flat, n'.ent = n.ent ∧ n'.links = dropLink u n.links
+  | .node e ks, n', h => by
+    simp only [Tree.erase, Tree.flat, subs_node, List.map_cons, List.mem_cons] at h
+    rcases h with rfl | h
+    · refine ⟨toNode (.node e ks), by simp [Tree.flat], rfl, ?_⟩
+      simp [toNode, Tree.kids, linksL_eraseL]
+    · obtain ⟨n, hn, h1, h2⟩ := eraseL_frame u ks n' h
+      exact ⟨n, by simp only [Tree.flat, subs_node, List.map_cons, List.mem_cons]; right; exact hn, h1, h2⟩
+theorem eraseL_frame (u : Nat) : ∀ (ts : List Tree) (n' : Node), n' ∈ (subsL (eraseL ts u)).map toNode →
+    ∃ n ∈ (subsL ts).map toNode, n'.ent = n.ent ∧ n'.links = dropLink u n.links
+  | [], n', h => by simp [eraseL] at h
+  | t :: ts, n', h => by
+    simp only [eraseL] at h
+    split at h
+    · obtain ⟨n, hn, h1, h2⟩ := eraseL_frame u ts n' h
+      exact ⟨n, by simp only [subsL_cons, List.map_append, List.mem_append]; right; exact hn, h1, h2⟩
+    · simp only [subsL_cons, List.map_append, List.mem_append] at h
+      rcases h with h | h
+      · obtain ⟨n, hn, h1, h2⟩ := erase_frame u t n' (by simpa [Tree.flat] using h)
+        exact ⟨n, by simp only [subsL_cons, List.map_append, List.mem_append]; left; simpa [Tree.flat] using hn, h1, h2⟩
+      · obtain ⟨n, hn, h1, h2⟩ := eraseL_frame u ts n' h
+        exact ⟨n, by simp only [subsL_cons, List.map_append, List.mem_append]; right; exact hn, h1, h2⟩
+end
+
+mutual
+theorem mapEnts_frame (f : Ent → Ent) (hf : ∀ e, (f e).uid = e.uid ∧ (f e).kind = e.kind) :
+    ∀ (t : Tree) (n' : Node), n' ∈ (t.mapEnts f).flat → ∃ n ∈ t.flat, n'.ent = f n.ent ∧ n'.links = n.links
+  | .node e ks, n', h => by
+    simp only [Tree.mapEnts, Tree.flat, subs_node, List.map_cons, List.mem_cons] at h
+    rcases h with rfl | h
+    · refine ⟨toNode (.node e ks), by simp [Tree.flat], rfl, ?_⟩
+      simp only [toNode, Tree.kids]
+      exact linksL_mapEntsL f hf ks
+    · obtain ⟨n, hn, h1, h2⟩ := mapEntsL_frame f hf ks n' h
+      exact ⟨n, by simp only [Tree.flat, subs_node, List.map_cons, List.mem_cons]; right; exact hn, h1, h2⟩
+theorem mapEntsL_frame (f : Ent → Ent) (hf : ∀ e, (f e).uid = e.uid ∧ (f e).kind = e.kind) :
+    ∀ (ts : List Tree) (n' : Node), n' ∈ (subsL (mapEntsL f ts)).map toNode →
+      ∃ n ∈ (subsL ts).map toNode, n'.ent = f n.ent ∧ n'.links = n.links
+  | [], n', h => by simp [mapEntsL] at h
+  | t :: ts, n', h => by
+    simp only [mapEntsL, subsL_cons, List.map_append, List.mem_append] at h
+    rcases h with h | h
+    · obtain ⟨n, hn, h1, h2⟩ := mapEnts_frame f hf t n' (by simpa [Tree.flat] using h)
+      exact ⟨n, by simp only [subsL_cons, List.map_append, List.mem_append]; left; simpa [Tree.flat] using hn, h1, h2⟩
+    · obtain ⟨n, hn, h1, h2⟩ := mapEntsL_frame f hf ts n' h
+      exact ⟨n, by simp only [subsL_cons, List.map_append, List.mem_append]; right; exact hn, h1, h2⟩
+theorem linksL_mapEntsL (f : Ent → Ent) (hf : ∀ e, (f e).uid = e.uid ∧ (f e).kind = e.kind) :
+    ∀ ks : List Tree, linksL (mapEntsL f ks) = linksL ks
+  | [] => by simp [mapEntsL, linksL]
+  | k :: ks => by
+    have ih := linksL_mapEntsL f hf ks
+    simp only [linksL] at ih ⊢
+    cases k with
+    | node e kk =>
+      simp only [mapEntsL, Tree.mapEnts, List.map_cons, ih, List.cons.injEq, and_true]
+      simp [Tree.ent, hf]
+end
+
+theorem cleanPGs_keeps (gone : List Nat) (e : Ent) : (cleanPGs gone e).uid = e.uid ∧ (cleanPGs gone e).kind = e.kind := ⟨rfl, rfl⟩
+
+/-- an entity none of whose property groups lists removed data (and that has no empty group) is not touched by the
+    scrubbing of property groups -/
+theorem cleanPGs_noop (gone : List Nat) (e : Ent)
+    (h : ∀ g ∈ e.pgs, g.props ≠ [] ∧ ∀ d ∈ g.props, d ∉ gone) : cleanPGs gone e = e := by
+  have h1 : e.pgs.map (cleanPG gone) = e.pgs := by
+    rw [List.map_congr_left (g := id)]
+    · simp
+    · intro g hg
+      have := (h g hg).2
+      cases g with
+      | mk uid name props =>
+        simp only [cleanPG, id, PG.mk.injEq, true_and]
+        apply List.filter_eq_self.mpr
+        intro d hd
+        simpa using this d hd
+  have h2 : (e.pgs.filter fun g => !g.props.isEmpty) = e.pgs := by
+    apply List.filter_eq_self.mpr
+    intro g hg
+    have := (h g hg).1
+    cases hp : g.props <;> simp_all
+  simp only [cleanPGs, h1, h2]
+
+/-- **Frame for `workspace.remove_entity` and `parent.remove_children`**: every node stored after the removal is a node stored
+    before it, with its child entries minus the entries for `u` and its property groups scrubbed of the removed data; with
+    `cleanPGs_noop`, a node that neither links to `u` nor lists removed data in a property group is identical. -/
+theorem remove_frame (t t' : Tree) (u : Nat) (h : step t (.remove u) = (t', .ok) ∨ step t (.detach u) = (t', .ok)) :
+    ∃ s, t.findSub u = some s ∧ ∀ n' ∈ t'.flat, ∃ n ∈ t.flat,
+      n'.ent = cleanPGs s.uids n.ent ∧ n'.links = dropLink u n.links := by
+  have key : ∀ s, t.findSub u = some s → t' = (t.erase u).mapEnts (cleanPGs s.uids) →
+      ∀ n' ∈ t'.flat, ∃ n ∈ t.flat, n'.ent = cleanPGs s.uids n.ent ∧ n'.links = dropLink u n.links := by
+    intro s _ ht n' hn'
+    subst ht
+    obtain ⟨m, hm, e1, l1⟩ := mapEnts_frame _ (cleanPGs_keeps s.uids) _ n' hn'
+    obtain ⟨n, hn, e2, l2⟩ := erase_frame u t m hm
+    exact ⟨n, hn, by rw [e1, e2], by rw [l1, l2]⟩
+  rcases h with h | h
+  all_goals
+    simp only [step] at h
+    cases hs : t.findSub u with
+    | none => simp [hs] at h
+    | some s =>
+      simp only [hs] at h
+      split at h
+      · simp at h
+      · simp only [Prod.mk.injEq, and_true] at h
+        exact ⟨s, rfl, key s hs h.symm⟩
+
+mutual
+/-- every node stored after an insertion is a node of the inserted subtree or an old node, unchanged except that the
+    receiving parent gained one child entry -/
+theorem insert_frame_back (c : Tree) : ∀ (t : Tree) (p : Nat) (n' : Node), n' ∈ (t.insert p c).flat →
+    n' ∈ c.flat ∨ ∃ n ∈ t.flat, n'.ent = n.ent ∧
+      (n'.links = n.links ∨ (n.ent.uid = p ∧ n'.links = n.links ++ [(c.ent.kind, c.ent.uid)]))
+  | .node e ks, p, n', h => by
+    simp only [Tree.insert] at h
+    split at h
+    · rename_i he
+      simp only [Tree.flat, subs_node, List.map_cons, List.mem_cons, subsL_append, List.map_append, List.mem_append] at h
+      rcases h with rfl | h | h
+      · right
+        refine ⟨toNode (.node e ks), by simp [Tree.flat], rfl, Or.inr ⟨by simpa [toNode, Tree.ent] using he, ?_⟩⟩
+        simp [toNode, Tree.kids, linksL]
+      · right
+        exact ⟨n', by simp only [Tree.flat, subs_node, List.map_cons, List.mem_cons]; right; exact h, rfl, Or.inl rfl⟩
+      · left
+        simpa [Tree.flat, subsL] using h
+    · simp only [Tree.flat, subs_node, List.map_cons, List.mem_cons] at h
+      rcases h with rfl | h
+      · right
+        refine ⟨toNode (.node e ks), by simp [Tree.flat], rfl, Or.inl ?_⟩
+        simp only [toNode, Tree.kids]
+        exact linksL_insertL c ks p
+      · rcases insertL_frame_back c ks p n' h with h | ⟨n, hn, h1, h2⟩
+        · left; exact h
+        · right
+          exact ⟨n, by simp only [Tree.flat, subs_node, List.map_cons, List.mem_cons]; right; exact hn, h1, h2⟩
+theorem insertL_frame_back (c : Tree) : ∀ (ts : List Tree) (p : Nat) (n' : Node),
+    n' ∈ (subsL (insertL ts p c)).map toNode →
+    n' ∈ c.flat ∨ ∃ n ∈ (subsL ts).map toNode, n'.ent = n.ent ∧
+      (n'.links = n.links ∨ (n.ent.uid = p ∧ n'.links = n.links ++ [(c.ent.kind, c.ent.uid)]))
+  | [], _, n', h => by simp [insertL] at h
+  | t :: ts, p, n', h => by
+    simp only [insertL, subsL_cons, List.map_append, List.mem_append] at h
+    rcases h with h | h
+    · rcases insert_frame_back c t p n' (by simpa [Tree.flat] using h) with h | ⟨n, hn, h1, h2⟩
+      · left; exact h
+      · right
+        exact ⟨n, by simp only [subsL_cons, List.map_append, List.mem_append]; left; simpa [Tree.flat] using hn, h1, h2⟩
+    · rcases insertL_frame_back c ts p n' h with h | ⟨n, hn, h1, h2⟩
+      · left; exact h
+      · right
+        exact ⟨n, by simp only [subsL_cons, List.map_append, List.mem_append]; right; exact hn, h1, h2⟩
+end
+
+/-- **Frame for re-parenting** (`entity.parent = p`): after a move every stored node is either a node of the moved subtree
+    (content and child entries as before, property groups scrubbed of `u`) or an old node whose content is unchanged up to
+    that scrubbing and whose child entries lost the entries for `u` and, for the new parent only, gained one for it. -/
+theorem move_frame (t t' : Tree) (u p : Nat) (h : step t (.move u p) = (t', .ok)) :
+    ∃ s, t.findSub u = some s ∧ ∀ n' ∈ t'.flat,
+      (∃ n ∈ s.flat, n'.ent = cleanPGs [u] n.ent ∧ n'.links = n.links) ∨
+      (∃ n ∈ t.flat, n'.ent = cleanPGs [u] n.ent ∧
+        (n'.links = dropLink u n.links ∨ (n.ent.uid = p ∧ n'.links = dropLink u n.links ++ [(s.ent.kind, s.ent.uid)]))) := by
+  simp only [step] at h
+  cases hs : t.findSub u with
+  | none => simp [hs] at h
+  | some s =>
+    simp only [hs] at h
+    split at h
+    · simp at h
+    · split at h
+      · simp at h
+      · simp only [Prod.mk.injEq, and_true] at h
+        refine ⟨s, rfl, ?_⟩
+        intro n' hn'
+        subst h
+        obtain ⟨m, hm, e1, l1⟩ := mapEnts_frame _ (cleanPGs_keeps [u]) _ n' hn'
+        rcases insert_frame_back s (t.erase u) p m hm with hm | ⟨k, hk, e2, l2⟩
+        · left; exact ⟨m, hm, e1, l1⟩
+        · right
+          obtain ⟨n, hn, e3, l3⟩ := erase_frame u t k hk
+          refine ⟨n, hn, by rw [e1, e2, e3], ?_⟩
+          rcases l2 with l2 | ⟨hp, l2⟩
+          · left; rw [l1, l2, l3]
+          · right; exact ⟨by rw [← e3]; exact hp, by rw [l1, l2, l3]⟩
+
+
+/-- non-vacuity: on the sample tree a removal and a move succeed, so the frame theorems speak about real steps -/
+example : (step exTree (.remove 2)).2 = .ok ∧ (step exTree (.detach 3)).2 = .ok ∧ (step exTree (.move 3 1)).2 = .ok := by decide
+example : ((step exTree (.remove 3)).1.flat.map (·.ent.uid)) = [1, 2, 5] := by decide
+
 end GeoVerif.Ws
